@@ -54,7 +54,8 @@ Definition chk_enc (n : node) : bytes * (bool * bool) :=
   (enc n, (dres_node_eqb (dec_full (enc n)) (DOk n), wf_nodeb known_prim utf8_valid n)).
 Definition chk_enc_eqb := prod_eqb bytes_eqb (prod_eqb Bool.eqb Bool.eqb).
 Definition accepted (r : dres node) : bool := match r with DOk _ => true | _ => false end.
-Definition chk_dec (bs : bytes) : dres node * bool := (dec_full bs, accepted (dec_full_tezos bs)).
+(* the malformed stream runs the index-style transcription of unforge_micheline (pdec_full = dec_full is a theorem) *)
+Definition chk_dec (bs : bytes) : dres node * bool := (pdec_full bs, accepted (dec_full_tezos bs)).
 Definition chk_dec_eqb := prod_eqb dres_node_eqb Bool.eqb.
 Definition sum_eqb {A B} (ea : A -> A -> bool) (eb : B -> B -> bool) (x y : A + B) : bool :=
   match x, y with inl a, inl b => ea a b | inr a, inr b => eb a b | _, _ => false end.
@@ -659,6 +660,21 @@ def run(ctx: lib.Ctx) -> None:
     bad_enc = [i for i in bad_all if i < len(enc_cases)]
     bad_dec = [i - len(enc_cases) for i in bad_all if i >= len(enc_cases)]
     lap('coqc')
+    # ---- thorough tier: independent re-check of the compiled development by coqchk
+    if ctx.thorough:
+        import subprocess
+        try:
+            r = subprocess.run(['coqchk', '-silent', '-o', '-R', lib.THEORIES, 'PV', 'PV.Properties.C05', 'PV.Properties.C33', 'PV.Properties.C32'],
+                               cwd=lib.COQ, stdout=subprocess.PIPE, stderr=subprocess.STDOUT, text=True, timeout=1500)
+            tail = ' '.join(r.stdout.split())[-600:]
+            clean = r.returncode == 0 and 'Axioms: <none>' in tail and 'type-in-type: <none>' in tail and 'unsafe (co)fixpoints: <none>' in tail
+            ctx.extra['coqchk'] = {'returncode': r.returncode, 'clean': clean, 'summary': tail}
+            if not clean:
+                violate('coqchk does not accept the compiled development as axiom-free', {'theorem_file': 'Properties/C05.v', 'coqchk': tail}, found=False)
+        except (OSError, subprocess.TimeoutExpired) as e:
+            ctx.extra['coqchk'] = {'skipped': repr(e)[:200]}
+        lap('coqchk')
+
     ctx.extra['literal_kb'] = {'structured': sum(len(a) + len(b) for a, b in enc_cases) // 1024, 'malformed': sum(len(a) + len(b) for a, b in dec_cases) // 1024}
     ctx.extra['structured_cases'] = len(enc_cases)
     ctx.extra['malformed_cases'] = len(dec_cases)
